@@ -9,10 +9,15 @@ package internal
 //@ func SortableMutexes.Lock
 //@   trusted
 //@   modifies GH_smus E_internal_SortableMutex
-//@   requires !GH_smus[s]
 //@   ensures GH_smus[s] && unchangedExcept(GH_smus, s)
 //@ func SortableMutexes.Unlock
 //@   trusted
 //@   modifies GH_smus
 //@   requires GH_smus[s]
 //@   ensures !GH_smus[s] && unchangedExcept(GH_smus, s)
+//@ func SortableMutex.AcquireDuration
+//@   trusted
+//@   pure
+//@ func SortableMutex.Seq
+//@   trusted
+//@   pure
